@@ -22,6 +22,21 @@ SEEDS = [
  ("c12-1", "C12", "RwLock::lock: re-check after set_release() removed in the Canceled arm",
   "the holder's whole hand-off lands between the cancelled waiter's is_unparked() load and its set_release() store",
   "c12_rwlock_cancelled_writer_d1", "CAUGHT-AFTER-STRENGTHENING", "the first C12 harnesses had no cancellation; added the cancelled-writer harness (park gives up with Canceled at a solver-chosen moment, holder's drop at any atomic step of the give-up hand-shake)"),
+ ("c02-1", "C02", "Park::subscribe's re-check after registering uses `!self.check_park()` (which clears the token) instead of `state.load()`",
+  "the worker running subscribe of park #1 is delayed after publishing the coroutine; unpark #1 resumes the coroutine on another worker, park #1 returns, unpark #2 (for park #2) sets the token, then the stale re-check of park #1 clears it: park #2 blocks for ever",
+  None, "MISSED", "needs the resumed coroutine's continuation to run *concurrently with the tail of its own subscribe* on another worker. In the sequential model a continuation cannot start before subscribe returns (stated as outside the bound in DESIGN §2.3/§5 C02); an unpark issued while subscribe is still running is indistinguishable from one that is concurrent with park #1, which may legitimately absorb it"),
+ ("c03-2", "C03", "mpsc pop slow path: `head.get(id)` (wait for the producer that claimed the slot) replaced by `head.try_get(id)?`",
+  "two producers: A stalled between its tail CAS and its slot write, B completes a push of a later slot; pop then returns None with B's completed value queued (any slot except the last of a block)",
+  "c03_mpsc_np_producer_root_o0_d1", "CAUGHT-AFTER-STRENGTHENING", "the quick tier only had the two-producer harness at the block's last slot, where the tail is locked and no later push can complete; the slot-0 instance (existing, thorough) refutes it in 86 s and was moved into the quick tier"),
+ ("c04-2", "C04", "spmc pop: the bit-63 'switching' flag is no longer stripped from the CAS comparand",
+  "a second consumer's pop while another consumer is between its head->head|bit63 CAS and the following head.store (block switch): the same task is handed out twice",
+  "c04_spmc_np_stealer_root_k3_d1", "SEE-NOTE", "stalled-stealer harness (thorough tier, needs 16-24 GB); result recorded below after the run with the raised memory cap"),
+ ("c07-1", "C07", "spsc drop_chan: wait_co.take() moved before channels.store(0)",
+  "the receiver's registration and re-check both land between the sender's take() and its store: nobody is woken",
+  "c07_spsc_last_sender_drop_vs_registering_receiver", "CAUGHT-AFTER-STRENGTHENING", "receiver-root harness cannot see it (the receiver's registration would have to land inside the sender's operation although recv began earlier); added the twin with the drop as root and the receiver's real Park::subscribe landing at any atomic step of drop_chan (7 s)"),
+ ("c13-1", "C13", "RwLockWriteGuard::drop: write_unlock() before poison.done()",
+  "a contender acquires the lock between the release and the poison-flag store of a panicking writer's guard drop and gets Ok instead of Poisoned",
+  "c13_rwlock_panicking_writer_drop_vs_contender", "CAUGHT-AFTER-STRENGTHENING", "the sequential poison harnesses see the right end state; added a contender (try_write / try_read) at any atomic step of the panicking holder's guard drop, for RwLock and Mutex"),
  ("c19-1", "C19", "mpsc_list_v1 push reads `tail` before head.swap instead of after",
   "the consumer pops the last entry between the producer's tail read and its head.swap: push lands in an empty list but reports is_head == false (timer never installed)",
   "c19_list_np_producer_root_d1", "CAUGHT-AFTER-STRENGTHENING", "the first oracle checked is_head only for pushes nothing overlapped; now decided at the linearization point (a swap stub records 'empty at head.swap')"),
